@@ -68,17 +68,30 @@ def _harness(ctx, name, variant, extra=()):
         return ctx.harness(name, ['c10_layout.c'], variant=variant, extra=list(extra))
 
 
+def _tie(name, cmd):
+    """common.run_tie, retried when the shared driver binary is momentarily missing (another owner's `lake build opusmodel`
+    relinks it in place)."""
+    import time
+    for attempt in range(4):
+        try:
+            return common.run_tie(name, cmd)
+        except FileNotFoundError:
+            time.sleep(20)
+            common.lake_build(['opusmodel'])
+    return common.run_tie(name, cmd)
+
+
 def ties(ctx):
     h = _harness(ctx, 'c10_layout', 'san')
     hs = _harness(ctx, 'c10_layout_stub', 'san', extra=['-DC10_STUB'])
     out = []
-    out.append(common.run_tie('layout-enum', [h, 'enum']))
-    out.append(common.run_tie('layout-rand', [h, 'rand', str(ctx.seed), _n(ctx, 6000, 150000)]))
-    out.append(common.run_tie('layout-msval', [h, 'msval', str(ctx.seed + 100), _n(ctx, 20000, 400000)]))
-    out.append(common.run_tie('layout-route', [hs, 'route', str(ctx.seed + 200), _n(ctx, 6000, 120000)]))
-    out.append(common.run_tie('layout-matrix', [h, 'matrix', str(ctx.seed + 300), _n(ctx, 1500, 30000)]))
-    out.append(common.run_tie('layout-msenc', [hs, 'msenc', str(ctx.seed + 600), _n(ctx, 6000, 100000)]))
-    out.append(common.run_tie('layout-projdec', [h, 'projdec', str(ctx.seed + 700), _n(ctx, 4000, 60000)]))
+    out.append(_tie('layout-enum', [h, 'enum']))
+    out.append(_tie('layout-rand', [h, 'rand', str(ctx.seed), _n(ctx, 6000, 150000)]))
+    out.append(_tie('layout-msval', [h, 'msval', str(ctx.seed + 100), _n(ctx, 20000, 400000)]))
+    out.append(_tie('layout-route', [hs, 'route', str(ctx.seed + 200), _n(ctx, 6000, 120000)]))
+    out.append(_tie('layout-matrix', [h, 'matrix', str(ctx.seed + 300), _n(ctx, 1500, 30000)]))
+    out.append(_tie('layout-msenc', [hs, 'msenc', str(ctx.seed + 600), _n(ctx, 6000, 100000)]))
+    out.append(_tie('layout-projdec', [h, 'projdec', str(ctx.seed + 700), _n(ctx, 4000, 60000)]))
     return out
 
 
